@@ -466,6 +466,10 @@ class StreamResult:
         self.exhaustive = False
 
 
+class CaseTimeout(BaseException):
+    """not an Exception: the code under test may wrap its work in `except Exception` and must not swallow this"""
+
+
 class SafeCall:
     """runs the implementation on one case; an exception (the code under test no longer has the shape the harness
     drives, or fails in a way the harness did not foresee) becomes an observation instead of ending the check"""
@@ -482,23 +486,25 @@ class SafeCall:
             return {"__impl_error__": "not attempted: three earlier cases of this worker did not finish within the time limit"}
 
         def on_alarm(signum, frame):
-            raise TimeoutError(f"the implementation did not finish this case within {limit} s")
+            raise CaseTimeout(f"the implementation did not finish this case within {limit} s")
         old = None
         try:
             old = signal.signal(signal.SIGALRM, on_alarm)
-            signal.alarm(limit)
+            # (repeating: should the first one be swallowed by a bare `except:` it comes again)
+            signal.setitimer(signal.ITIMER_REAL, limit, 5)
         except (ValueError, OSError):     # not in the main thread: no alarm
             old = None
         try:
             return self.func(case)
+        except CaseTimeout as exc:
+            SafeCall.timeouts += 1
+            return {"__impl_error__": f"CaseTimeout: {exc}"[:300]}
         except Exception as exc:  # noqa
             import traceback
-            if isinstance(exc, TimeoutError):
-                SafeCall.timeouts += 1
             return {"__impl_error__": f"{type(exc).__name__}: {exc}"[:300], "where": traceback.format_exc()[-600:]}
         finally:
             if old is not None:
-                signal.alarm(0)
+                signal.setitimer(signal.ITIMER_REAL, 0)
                 signal.signal(signal.SIGALRM, old)
 
 
